@@ -29,6 +29,7 @@ ASSUMPTIONS = [
     "the reference is the same operator / NumPy function applied to the in-memory data; where NumPy itself raises the case is inapplicable",
     "ufunc(where=w) without out=: NumPy leaves masked-out cells uninitialised, so only cells with w true are compared",
     "lazy dtype must equal the computed dtype (C25 invariant, checked for free) and both must equal NumPy's",
+    "da.clip(x, min=, max=) keyword form is outside the alphabet (elemwise refuses every keyword with an explicit TypeError); Array.clip(min=, max=) is inside",
 ]
 
 # --------------------------------------------------------------------------------------------- alphabets
@@ -246,17 +247,21 @@ def is_dask(opd):
 def RULE(tier):
     t = tier == "thorough"
     return (
-        "bin/chunk: every broadcast-compatible ordered pair of shapes from {(),(1,),(3,),(2,3),(1,3),(2,1),(0,),(2,0)} x EVERY chunking of each dask "
+        f"bin/chunk: every broadcast-compatible ordered pair of shapes from {{(),(1,),(3,),(2,3),(1,3),(2,1),(0,),(2,0)}} plus (4,)x(4,), (5,)x(5,){', (6,)x(6,), (2,4)x(2,4)' if t else ''} "
+        "(every PAIR of chunkings, so that differently chunked axes must be unified) x EVERY chunking of each dask "
         f"operand x operand kinds {{dask-dask, dask-numpy, numpy-dask}} x {len(OPERATORS_T if t else OPERATORS)} operators + maximum/minimum"
         f"{' + ' + str(len(BIN_UFUNCS_X)) + ' more binary ufuncs' if t else ''} x dtype pairs {'all of ' + str(len(DT_CORE) + 1) + '^2' if t else '(i8,i8),(f8,i1),(bool,u1),(f8nan,f4)'}; "
         f"bin/dtype: ALL ordered dtype pairs over {{bool,i1,i8,u1,f4,f8,c16,f8-with-NaN/inf,M8[D],m8[h]}} x all operators/ufuncs (incl. {len(BIN_UFUNCS_X)} further "
         "binary ufuncs and NumPy-ufunc dispatch) x kinds {dd,dn,nd, dask with python scalar / numpy scalar on either side} on "
         f"{'6' if t else '3'} multi-chunk broadcasting shape pairs; "
         f"un: {len(UNARY) + len(UNARY_X)} unary ufuncs/functions x 10 dtypes x every shape x every chunking; "
-        "where: every compatible (cond,x,y) shape triple x every chunking x kinds {dask,numpy,scalar} x dtype pairs; "
-        "ufw: ufunc(where=, out=) for add/multiply/less/negative/sqrt x where in {absent,True,False,numpy,dask with every chunking} x out in {absent, dask of "
-        "result dtype / wider dtype, every chunking}; astype: all dtype pairs x casting x every chunking; clip: method/function/np-dispatch x bounds "
-        "{None, scalar, numpy, dask (every chunking)} x dtypes. Oracle: computed values AND dtype equal NumPy's (exact; NaN==NaN), lazy dtype/shape/chunks "
+        "where: every compatible (cond,x,y) shape triple over {(),(3,),(2,3),(1,3),(2,1),(0,)} x every chunking of every dask operand"
+        f"{'' if t else ' (when all three operands are multi-chunk: every chunking of two of them x 3 of the third)'} x 4 dask/numpy kind patterns x "
+        f"{7 if t else 3} dtype triples, plus python/numpy scalars in every position (incl. the scalar-condition branch); "
+        f"ufw: ufunc(where=, out=) for add/{'multiply/' if t else ''}less/negative/sqrt x where in {{absent,True,False,numpy,dask}} x out in {{absent, dask array of the "
+        f"result dtype, dask array of a wider dtype}} x {'every chunking' if t else '<= 3 chunkings (finest, single, irregular)'} of each operand; "
+        "astype: all dtype pairs (16 targets) x casting/copy keywords x every chunking; clip: Array.clip / da.clip / np.clip dispatch / keyword form x bounds "
+        f"{{None, python scalar, numpy scalar, numpy array, dask array}} x 6 dtype triples{'' if t else ' (every chunking for da.clip, <= 3 otherwise)'}. Oracle: computed values AND dtype equal NumPy's (exact; NaN==NaN), lazy dtype/shape/chunks "
         "agree with the computed blocks. non-trivial = some dask operand has >= 2 chunks, or operands of different shapes are broadcast."
     )
 
@@ -268,7 +273,7 @@ def shards(tier):
     out = []
     # simplest first
     for fam in ("un", "astype", "clip", "ufw", "where", "binchunk", "bindtype"):
-        k = NSPLIT[fam] * (2 if tier == "thorough" and fam in ("binchunk", "bindtype", "where") else 1)
+        k = NSPLIT[fam] * (1 if tier == "quick" else (8 if fam == "binchunk" else 2))
         for part in range(k):
             out.append((fam, part, k))
     return out
@@ -300,6 +305,18 @@ def gen_binchunk(tier):
                 for A in operand_variants(sa, ta, [ka], all_chunkings):
                     for B in operand_variants(sb, tb, [kb], all_chunkings):
                         for op in ops:
+                            yield ("bin", op, A, B)
+    # longer axes: two DIFFERENT multi-chunk chunkings of one axis must be unified to a common refinement
+    # (common_blockdim); length 3 is too short to tell a wrong walk from a right one
+    long_pairs = [((4,), (4,), ops, dts[:4]), ((4,), (1,), ops[:4], dts[:1]), ((5,), (5,), ["+", "<", "maximum", "**"], dts[:1])]
+    if tier == "thorough":
+        long_pairs = [((4,), (4,), ops, dts[:8]), ((5,), (5,), ops, dts[:2]), ((2, 4), (2, 4), ["+", "<", "maximum", "**"], dts[:1]), ((6,), (6,), ["+", "<"], dts[:1])]
+    for sa, sb, lops, ldts in long_pairs:
+        for ka, kb in (("d", "d"), ("d", "n"), ("n", "d")):
+            for ta, tb in ldts:
+                for A in operand_variants(sa, ta, [ka], all_chunkings):
+                    for B in operand_variants(sb, tb, [kb], all_chunkings):
+                        for op in lops:
                             yield ("bin", op, A, B)
 
 
@@ -417,7 +434,7 @@ def gen_ufw(tier):
                 if tout is not None and fn in ("less", "sqrt"):
                     continue
                 for A in operand_variants(sa, ta, ["d"], all_chunkings if t else few_chunkings):
-                    Bs = [None] if nin == 1 else list(operand_variants(sb, tb, ["d", "n"], few_chunkings))
+                    Bs = [None] if nin == 1 else list(operand_variants(sb, tb, ["d", "n"], all_chunkings if t else few_chunkings))
                     for B in Bs:
                         ws = [None, ("py", True), ("py", False)]
                         for sw in sorted({res, (res[-1],) if res else (), ()}):
